@@ -1501,6 +1501,8 @@ theorem DoneDropped_applyOp (c : Sys) (op : SOp) (h : DoneDropped c.s) : DoneDro
   | setReady b => exact frame _ (hc.liftT _ _ ⟨rfl, rfl⟩)
   | setFlush b => exact frame _ (hc.liftT _ _ ⟨rfl, rfl⟩)
   | fault k => exact frame _ ⟨rfl, rfl⟩
+  | faultSkip n => exact frame _ ⟨rfl, rfl⟩
+  | selfWake b => exact frame _ ⟨rfl, rfl⟩
   | take n => exact frame _ (hc.took (c.s.t.take n).2 { c.s with t := (c.s.t.take n).1 } ⟨rfl, rfl⟩)
   | advance n => exact frame _ (hc.onAdvance _ _ ⟨rfl, rfl⟩)
 
